@@ -43,7 +43,10 @@ THEOREMS = [
 ]
 
 RULE = (
-    "cases = type-directed random TIR templates (parameters, inputs, fees, compiler ops with parameter "
+    "cases = a redex sweep (238 small templates: every rewrite rule of the reducer - add, sub, negate, property access "
+    "on list / struct / tuple / map literals - met by every class of operand: a constant, a closed expression that folds, "
+    "a pending parameter, an expression that folds once the argument is there, a substituted parameter, NoOp wrappers) "
+    "and type-directed random TIR templates (parameters, inputs, fees, compiler ops with parameter "
     "operands, locals-like wrappers) with type-correct args, UTxO sets and a fee; for each, every permutation "
     "of the stages {args, inputs, fees, compiler-ops} x every subset of reduce positions (quick: a third, "
     "always including the repository's own two orders; thorough: all 384) is run on the real crates and the "
